@@ -57,22 +57,22 @@ type Config struct {
 	ReplayFile string
 	// Child mode: run the jobs of shard ShardIdx (of ShardN) sequentially and append one JSON line
 	// per finished job to OutFile.
-	Child              bool
-	ShardIdx, ShardN   int
-	OutFile            string
-	InProcess          bool // debugging: no child processes
+	Child            bool
+	ShardIdx, ShardN int
+	OutFile          string
+	InProcess        bool // debugging: no child processes
 }
 
 type caseResult struct {
 	c        Case
-	CaseID   string           `json:"case"`
-	Job      int              `json:"job"`
-	Modulus  string           `json:"modulus"`
-	Out      *symalg.Outcome  `json:"out"`
-	Stats    map[string]any   `json:"stats"`
-	Concrete *symalg.Outcome  `json:"concrete,omitempty"`
-	Replays  []replayResult   `json:"replays,omitempty"`
-	Wall     float64          `json:"wall"`
+	CaseID   string          `json:"case"`
+	Job      int             `json:"job"`
+	Modulus  string          `json:"modulus"`
+	Out      *symalg.Outcome `json:"out"`
+	Stats    map[string]any  `json:"stats"`
+	Concrete *symalg.Outcome `json:"concrete,omitempty"`
+	Replays  []replayResult  `json:"replays,omitempty"`
+	Wall     float64         `json:"wall"`
 }
 
 type replayResult struct {
@@ -88,11 +88,11 @@ type replayResult struct {
 
 // KnownFinding is an entry of /verif/known_findings.json.
 type KnownFinding struct {
-	Property   string `json:"property"`
-	Status     string `json:"status"` // "known" | "fixed"
-	Match      string `json:"match"`  // regexp over "<case id>#<obligation id>"
-	What       string `json:"what"`
-	Commit     string `json:"commit,omitempty"`
+	Property string `json:"property"`
+	Status   string `json:"status"` // "known" | "fixed"
+	Match    string `json:"match"`  // regexp over "<case id>#<obligation id>"
+	What     string `json:"what"`
+	Commit   string `json:"commit,omitempty"`
 }
 
 func loadKnown(dir string) []KnownFinding {
@@ -188,16 +188,18 @@ func RunProperty(cfg Config, cases []Case) int {
 	known := loadKnown(cfg.VerifDir)
 	var (
 		nObl, nValid, nWitnessed, nViol, nInconc int
-		paths, forks, genericity             int
-		queries                              = map[string]float64{}
-		samples                              []any
-		violations                           []replayResult
-		mismatches                           []replayResult
-		inconclusive                         []string
-		concreteRuns, concreteFail           int
-		rawMismatch                          int
-		concreteSpot                         int
-		distinct                             = map[string]bool{}
+		paths, forks, genericity                 int
+		queries                                  = map[string]float64{}
+		samples                                  []any
+		violations                               []replayResult
+		mismatches                               []replayResult
+		inconclusive                             []string
+		concreteRuns, concreteFail               int
+		rawMismatch                              int
+		concreteSpot                             int
+		distinct                                 = map[string]bool{}
+		reachCount                               = map[string]int{}
+		oblCount                                 = map[string]int{}
 	)
 	exit := 0
 	for _, r := range results {
@@ -223,6 +225,11 @@ func RunProperty(cfg Config, cases []Case) int {
 		for _, id := range ids {
 			o := r.Out.Obligations[id]
 			nObl++
+			if strings.HasPrefix(id, "reach:") {
+				reachCount[trunc(strings.TrimPrefix(id, "reach:"), 60)]++
+			} else {
+				oblCount[id]++
+			}
 			switch o.Status {
 			case symalg.StValid:
 				nValid++
@@ -351,35 +358,37 @@ func RunProperty(cfg Config, cases []Case) int {
 			"obligations":                   nObl,
 			"discharged":                    nValid + nWitnessed,
 			"obligations_valid":             nValid,
-			"valid_checks_discharged_by_solver_query":   int(queries["valid_queries"]),
+			"valid_checks_discharged_by_solver_query":     int(queries["valid_queries"]),
 			"valid_checks_reduced_to_true_by_normal_form": int(queries["syntactic_valid"]),
-			"raw_form_rechecks":                         int(queries["raw_checks"]),
+			"raw_form_rechecks":                           int(queries["raw_checks"]),
 			"raw_form_rechecks_confirmed_unsat_by_solver": int(queries["raw_confirmed"]),
-			"raw_form_rechecks_unknown":                  int(queries["raw_unknown"]),
-			"raw_form_rechecks_disagreeing":              int(queries["raw_disagree"]),
-			"obligations_witnessed":         nWitnessed,
-			"obligations_violated":          nViol,
-			"obligations_inconclusive":      nInconc,
-			"inconclusive":                  inconclusive,
-			"cases":                         len(jobs),
-			"symbolic_paths":                paths,
-			"forks":                         forks,
-			"genericity_assumptions":        genericity,
-			"moduli":                        cfg.Moduli,
-			"queries":                       queries,
-			"solver_time_s":                 queries["solver_s"],
-			"concrete_validation_runs":      concreteRuns,
-			"concrete_validation_failures":  concreteFail,
-			"concrete_only_spot_checks":     concreteSpot,
-			"functions_encoded":             cfg.Functions,
-			"bounds":                        cfg.Bounds,
-			"outside_claim":                 cfg.Outside,
-			"engine":                        "E2 symgen: native execution of the library's generic code instantiated with SMT-term-valued field/group types; branches and assertions decided by " + cfg.Solver,
-			"checker_cmd":                   fmt.Sprintf("./check %s %s", cfg.Property, cfg.Tier),
-			"trusted_base":                  []string{"z3 (and cvc5/z3-new when cross-checking)", "symalg polynomial normal form (validated by concrete-model runs)", "Go compiler/runtime", "isomorphism prime-order group ≅ (Z/q,+)", "random-oracle idealisation where an obligation crosses a hash"},
-			"known_findings_reported":       len(knownLines),
-			"engine_mismatches":             len(mismatches),
-			"exhaustive":                    false,
+			"raw_form_rechecks_unknown":                   int(queries["raw_unknown"]),
+			"raw_form_rechecks_disagreeing":               int(queries["raw_disagree"]),
+			"obligations_witnessed":                       nWitnessed,
+			"obligations_violated":                        nViol,
+			"obligations_inconclusive":                    nInconc,
+			"inconclusive":                                inconclusive,
+			"cases":                                       len(jobs),
+			"symbolic_paths":                              paths,
+			"forks":                                       forks,
+			"genericity_assumptions":                      genericity,
+			"moduli":                                      cfg.Moduli,
+			"queries":                                     queries,
+			"solver_time_s":                               queries["solver_s"],
+			"concrete_validation_runs":                    concreteRuns,
+			"concrete_validation_failures":                concreteFail,
+			"concrete_only_spot_checks":                   concreteSpot,
+			"functions_encoded":                           cfg.Functions,
+			"bounds":                                      cfg.Bounds,
+			"outside_claim":                               cfg.Outside,
+			"engine":                                      "E2 symgen: native execution of the library's generic code instantiated with SMT-term-valued field/group types; branches and assertions decided by " + cfg.Solver,
+			"checker_cmd":                                 fmt.Sprintf("./check %s %s", cfg.Property, cfg.Tier),
+			"trusted_base":                                []string{"z3 (and cvc5/z3-new when cross-checking)", "symalg polynomial normal form (validated by concrete-model runs)", "Go compiler/runtime", "isomorphism prime-order group ≅ (Z/q,+)", "random-oracle idealisation where an obligation crosses a hash"},
+			"known_findings_reported":                     len(knownLines),
+			"reach_markers_cases":                         reachCount,
+			"obligation_ids_cases":                        oblCount,
+			"engine_mismatches":                           len(mismatches),
+			"exhaustive":                                  false,
 		},
 	}
 	evDir := filepath.Join(cfg.VerifDir, "evidence")
@@ -546,7 +555,6 @@ func ReplayFile(cfg Config, cases []Case, path string) int {
 	fmt.Println("case not found:", f.Replay.Case)
 	return 2
 }
-
 
 // runSharded distributes the jobs over single-threaded child processes (GOMAXPROCS=1: the library's
 // own goroutines — sigand runs sub-protocols in an errgroup — then interleave deterministically, a
